@@ -151,7 +151,7 @@ pub fn draw_cfg(seed: u64, p: &Profile) -> RunCfg {
         };
         if p.small_config {
             c.epoch_snapshot_retention = [5, 5, 3, 2, 6, 1][r.below(6) as usize];
-            c.max_past_epochs = [5, 5, 3, 1, 2][r.below(5) as usize];
+            c.max_past_epochs = [5, 5, 3, 1, 2, 8][r.below(6) as usize];
             c.out_of_order_tolerance = [100, 100, 5, 10, 3][r.below(5) as usize];
             c.maximum_forward_distance = [1000, 1000, 20, 50][r.below(4) as usize];
         }
